@@ -166,6 +166,18 @@ def tok_concat(a, b):
     return TokStr(pa + pb)
 
 
+class Guarded(object):
+    """list element that is present iff `guard` holds (if-merging, DESIGN.md 1.4)"""
+    __slots__ = ('guard', 'value')
+
+    def __init__(self, guard, value):
+        self.guard = guard
+        self.value = value
+
+    def __repr__(self):
+        return 'Guarded(%s, %r)' % (self.guard, self.value)
+
+
 class HashV(object):
     """value of hash(x): an uninterpreted function of x (functional w.r.t. ==)"""
     def __init__(self, v):
@@ -261,6 +273,7 @@ class Interp(object):
         self.summarised = set()
         self.warn_calls = 0
         self.steps = 0
+        self.merge = False      # if-merging into guarded list elements (set by contracts)
 
     # ---------------------------------------------------------- modules
     def module(self, name):
@@ -401,7 +414,17 @@ class Interp(object):
         raise _Return(self.eval(st.value, env) if st.value is not None else None)
 
     def st_If(self, st, env):
-        if self.branch(self.eval(st.test, env)):
+        cond = self.truth(self.eval(st.test, env))
+        if not isinstance(cond, bool) and self.merge and not st.orelse and len(st.body) == 1:
+            b = st.body[0]
+            if (isinstance(b, ast.Expr) and isinstance(b.value, ast.Call) and isinstance(b.value.func, ast.Attribute)
+                    and b.value.func.attr == 'append' and len(b.value.args) == 1 and not b.value.keywords
+                    and isinstance(b.value.args[0], (ast.Name, ast.Constant)) and isinstance(b.value.func.value, ast.Name)):
+                lst = self.eval(b.value.func.value, env)
+                if isinstance(lst, list):
+                    lst.append(Guarded(cond, self.eval(b.value.args[0], env)))
+                    return
+        if cond if isinstance(cond, bool) else self.ctx.decide(cond):
             self.exec_block(st.body, env)
         else:
             self.exec_block(st.orelse, env)
@@ -848,43 +871,63 @@ class Interp(object):
                 kwargs[k.arg] = self.eval(k.value, env)
         return self.call(f, args, kwargs)
 
+    def _emit_to(self, out, node):
+        def emit(e, guard):
+            v = self.eval(node.elt, e)
+            out.append(v if guard is True else Guarded(guard, v))
+        return emit
+
     def ex_ListComp(self, node, env):
         out = []
-        self._comp(node.generators, 0, Env({}, env, env.module, env.func), lambda e: out.append(self.eval(node.elt, e)))
+        self._comp(node.generators, 0, Env({}, env, env.module, env.func), self._emit_to(out, node), True, node.elt)
         return out
 
     def ex_GeneratorExp(self, node, env):
         out = []
-        self._comp(node.generators, 0, Env({}, env, env.module, env.func), lambda e: out.append(self.eval(node.elt, e)))
+        self._comp(node.generators, 0, Env({}, env, env.module, env.func), self._emit_to(out, node), True, node.elt)
         return IterV(out)
 
     def ex_SetComp(self, node, env):
         out = []
-        self._comp(node.generators, 0, Env({}, env, env.module, env.func), lambda e: out.append(self.eval(node.elt, e)))
+        self._comp(node.generators, 0, Env({}, env, env.module, env.func), self._emit_to(out, node))
         return self.models.make_set(self, out)
 
     def ex_DictComp(self, node, env):
         out = {}
 
-        def put(e):
+        def put(e, guard):
             out[self.eval(node.key, e)] = self.eval(node.value, e)
         self._comp(node.generators, 0, Env({}, env, env.module, env.func), put)
         return out
 
-    def _comp(self, gens, i, env, emit):
+    def _comp(self, gens, i, env, emit, guard=True, elt=None):
         if i == len(gens):
-            emit(env)
+            emit(env, guard)
             return
         g = gens[i]
-        for it in self.iterate(self.eval(g.iter, env)):
+        pure_elt = elt is not None and (isinstance(elt, ast.Name) or (isinstance(elt, ast.Attribute) and isinstance(elt.value, ast.Name)))
+        for it in self.iterate(self.eval(g.iter, env), allow_guarded=True):
+            gd = guard
+            if isinstance(it, Guarded):
+                if not (self.merge is True and pure_elt and i == len(gens) - 1):
+                    raise Unsupported("iteration over a guarded list outside a mergeable comprehension")
+                gd = sym.And(gd, it.guard)
+                it = it.value
             self.assign(g.target, it, env)
             ok = True
             for c in g.ifs:
-                if not self.branch(self.eval(c, env)):
+                t = self.truth(self.eval(c, env))
+                if isinstance(t, bool):
+                    if not t:
+                        ok = False
+                        break
+                elif self.merge is True and pure_elt and i == len(gens) - 1:
+                    gd = sym.And(gd, t)
+                elif not self.ctx.decide(t):
                     ok = False
                     break
             if ok:
-                self._comp(gens, i + 1, env, emit)
+                self._comp(gens, i + 1, env, emit, gd, elt)
 
     def ex_Yield(self, node, env):
         e = env
@@ -1146,8 +1189,15 @@ class Interp(object):
                 self.raise_py('TypeError', "'in <string>' requires string as left operand, not %s" % _tn(x))
             return x in cont
         if isinstance(cont, (list, tuple)):
-            return sym.Or(*[(x is y) or self.truth(self.py_eq(y, x)) if isinstance(x, (Obj, list, dict)) else self.truth(self.py_eq(y, x))
-                            for y in cont])
+            terms = []
+            for y in cont:
+                if isinstance(y, Guarded):
+                    terms.append(sym.And(y.guard, self.truth(self.py_eq(y.value, x))))
+                elif isinstance(x, (Obj, list, dict)):
+                    terms.append((x is y) or self.truth(self.py_eq(y, x)))
+                else:
+                    terms.append(self.truth(self.py_eq(y, x)))
+            return sym.Or(*terms)
         if isinstance(cont, IterV):
             return self.contains(cont.rest(), x)
         if isinstance(cont, (set, frozenset, dict)):
@@ -1318,11 +1368,16 @@ class Interp(object):
             return o.pyvc_delitem(self, idx)
         raise Unsupported("del item on %s" % _tn(o))
 
-    def iterate(self, v):
+    def iterate(self, v, allow_guarded=False):
         if isinstance(v, (list, tuple)):
+            if not allow_guarded and any(isinstance(x, Guarded) for x in v):
+                raise Unsupported("iteration over a guarded (if-merged) list")
             return list(v)
         if isinstance(v, IterV):
-            return v.rest()
+            r = v.rest()
+            if not allow_guarded and any(isinstance(x, Guarded) for x in r):
+                raise Unsupported("iteration over a guarded (if-merged) list")
+            return r
         if isinstance(v, range):
             if len(v) > MAX_LOOP_ITERS:
                 raise Unsupported("range too long")
